@@ -5,5 +5,6 @@ import (
 	_ "verifsim/props/c07"
 	_ "verifsim/props/c12"
 	_ "verifsim/props/c13"
+	_ "verifsim/props/c14"
 	_ "verifsim/props/c18"
 )
